@@ -185,6 +185,10 @@ def main(argv: List[str]) -> None:
                 print(f"note: analysis stopped early ({late_error}); reporting findings established before that")
             else:
                 raise
+        if os.environ.get("VERIF_COVERAGE"):  # development audit (tools/coverage_audit.py): which repo functions the interpreter executed
+            from . import tae as _tae
+            with open(os.environ["VERIF_COVERAGE"], "w") as fh:
+                json.dump(sorted(_tae.EXECUTED or ()), fh)
         extra: Dict[str, Any] = {}
         if args.tier == "thorough" and not args.replay:
             extra = selftest(prop, ctx)
